@@ -1320,4 +1320,80 @@ theorem bundle_le_pred {cfg : Cfg} {t : PV} {c : List PV} {d : Bytes} {n : Nat}
   rw [hn] at hm; cases hm
   exact hle
 
+/-! ### `sorted(messages, key=time)` is a stable sort -/
+
+theorem insertByTime_perm (x : Nat × DMsg) (l : List (Nat × DMsg)) : (insertByTime x l).Perm (x :: l) := by
+  induction l with
+  | nil => simp [insertByTime]
+  | cons y ys ih =>
+    unfold insertByTime
+    split
+    · exact List.Perm.refl _
+    · exact (List.Perm.cons y ih).trans (List.Perm.swap x y ys)
+
+theorem sortByTime_perm (l : List (Nat × DMsg)) : (sortByTime l).Perm l := by
+  induction l with
+  | nil => simp [sortByTime]
+  | cons x xs ih =>
+    simp only [sortByTime]
+    exact (insertByTime_perm x _).trans (List.Perm.cons x ih)
+
+theorem insertByTime_sorted (x : Nat × DMsg) (l : List (Nat × DMsg))
+    (h : l.Pairwise fun a b => a.1 ≤ b.1) : (insertByTime x l).Pairwise fun a b => a.1 ≤ b.1 := by
+  induction l with
+  | nil => simp [insertByTime]
+  | cons y ys ih =>
+    have hc := List.pairwise_cons.mp h
+    unfold insertByTime
+    split
+    · rename_i hle
+      refine List.pairwise_cons.mpr ⟨?_, h⟩
+      intro z hz
+      rcases List.mem_cons.mp hz with rfl | hz
+      · exact hle
+      · exact Nat.le_trans hle (hc.1 z hz)
+    · rename_i hnle
+      refine List.pairwise_cons.mpr ⟨?_, ih hc.2⟩
+      intro z hz
+      have := (insertByTime_perm x ys).subset hz
+      rcases List.mem_cons.mp this with rfl | hz'
+      · omega
+      · exact hc.1 z hz'
+
+theorem sortByTime_sorted (l : List (Nat × DMsg)) : (sortByTime l).Pairwise fun a b => a.1 ≤ b.1 := by
+  induction l with
+  | nil => simp [sortByTime]
+  | cons x xs ih => simp only [sortByTime]; exact insertByTime_sorted x _ ih
+
+theorem insertByTime_filter (t : Nat) (x : Nat × DMsg) (l : List (Nat × DMsg))
+    (h : l.Pairwise fun a b => a.1 ≤ b.1) :
+    (insertByTime x l).filter (fun p => p.1 == t) = (x :: l).filter (fun p => p.1 == t) := by
+  induction l with
+  | nil => simp [insertByTime]
+  | cons y ys ih =>
+    have hc := List.pairwise_cons.mp h
+    unfold insertByTime
+    split
+    · rfl
+    · rename_i hnle
+      have hlt : y.1 < x.1 := by omega
+      simp only [List.filter_cons]
+      rw [ih hc.2]
+      simp only [List.filter_cons]
+      by_cases hx : x.1 == t <;> by_cases hy : y.1 == t <;> simp [hx, hy]
+      · have h1 : x.1 = t := by simpa using hx
+        have h2 : y.1 = t := by simpa using hy
+        omega
+
+/-- stability: for every time `t` the messages stamped `t` keep their original relative order -/
+theorem sortByTime_stable (t : Nat) (l : List (Nat × DMsg)) :
+    (sortByTime l).filter (fun p => p.1 == t) = l.filter (fun p => p.1 == t) := by
+  induction l with
+  | nil => simp [sortByTime]
+  | cons x xs ih =>
+    simp only [sortByTime]
+    rw [insertByTime_filter t x _ (sortByTime_sorted xs)]
+    simp only [List.filter_cons]
+    rw [ih]
+
 end Sc3Verif.C06
